@@ -36,7 +36,7 @@ def _two(k0, k1, v0, v1):
     for i, (k, v) in enumerate(((k0, v0), (k1, v1))):
         kind = pick(KINDS, k)
         if kind == 'objectType':
-            syn = pick([seq('Integer32'), seq('OCTET STRING ( SIZE ( 0 .. 8 ) )'), seq('Counter64'), seq('INTEGER { oid ( 1 ) , b ( 2 ) }'),
+            syn = pick([seq('Integer32'), seq('OCTET STRING ( SIZE ( 0 .. 8 ) )'), seq('Counter64'), seq('INTEGER { oid ( 1 ) , class ( 2 ) , a-b ( 3 ) }'),
                         seq('TimeTicks')], v)
             acc = pick(['read-only', 'read-write', 'not-accessible', 'accessible-for-notify', 'read-create'], v)
             decls.append(m.object_type(NAMES[i], syn, m.oid('iso', 3, i + 1), access=acc, descr=m.text('d')))
